@@ -1,9 +1,18 @@
 (** C05 — property theorems (statements closed by [exact]). *)
 From Coq Require Import ZArith QArith Qround List Bool.
 From KV Require Import Base.IEEE Base.Outcome Base.Num C19.Model C06.Model C06.Dur C06.Proofs
-  C05.Model C05.Shared C05.ProofsClock.
+  C05.Model C05.Shared C05.ProofsClock C05.ProofsEvent C05.ProofsSpeed C05.ProofsShared.
 Import ListNotations.
 Local Open Scope Q_scope.
+
+(** The tick loop [while timer >= 1.0 { timer -= 1.0; ticks += 1 }] in exact arithmetic: it ends
+    after [floor timer] iterations and splits the timer exactly into whole ticks and a fraction in [0,1). *)
+Theorem tick_loop_exact :
+  forall (fuel : nat) (tk : Z) (timer : Q),
+    0 <= timer -> (Z.to_nat (Qfloor timer) < fuel)%nat -> (0 <= tk)%Z -> (tk + Qfloor timer <= u64_max)%Z ->
+    exists fr, tick_loop fuel tk timer = Ok ((tk + Qfloor timer)%Z, fr) /\
+               fr == timer - inject_Z (Qfloor timer) /\ 0 <= fr /\ fr < 1.
+Proof. exact tick_loop_spec. Qed.
 
 (** Exact audio time.  A ticking clock with a constant speed of [r] ticks per second, after ANY
     list of updates (= any partition of audio time into callbacks and internal buffers), shows
@@ -20,3 +29,223 @@ Theorem clock_exact_time :
     exists c', clock_run powf fuel c l = Ok c' /\ c_ticking c' = true /\ state_ok (c_state c') /\
                time_of (c_state c') == time_of (c_state c) + r * t.
 Proof. exact clock_exact_time_lemma. Qed.
+
+(** Partition independence: the same audio time, however it is split into callbacks and chunks,
+    gives the same (ticks, fraction). *)
+Theorem clock_partition_independent :
+  forall (powf : Q -> Q -> Q) (fuel : nat) (c : clock Q) (l1 l2 : list (Q * info Q)),
+    c_ticking c = true -> state_ok (c_state c) -> constant_speed (c_speed c) ->
+    let r := as_tps (p_raw (c_speed c)) in
+    0 <= r -> Forall (fun x => 0 <= fst x) l1 -> Forall (fun x => 0 <= fst x) l2 ->
+    qsum (map fst l1) == qsum (map fst l2) ->
+    time_of (c_state c) + r * qsum (map fst l1) < inject_Z (2 ^ 64) ->
+    (Z.to_nat (Qfloor (1 + r * qsum (map fst l1))) < fuel)%nat ->
+    exists c1 c2, clock_run powf fuel c l1 = Ok c1 /\ clock_run powf fuel c l2 = Ok c2 /\
+                  fst (state_time (c_state c1)) = fst (state_time (c_state c2)) /\
+                  snd (state_time (c_state c1)) == snd (state_time (c_state c2)).
+Proof. exact partition_independent_lemma. Qed.
+
+(** Varying speed (speed changes, speed tweens, modulated speeds): the clock advances at every update
+    by (the speed parameter's value at that update, as the C06 model computes it) * dt — exactly. *)
+Theorem clock_exact_time_varying :
+  forall (powf : Q -> Q -> Q) (fuel : nat) (l : list (Q * info Q)) (c : clock Q) (incs : list Q),
+    c_ticking c = true -> state_ok (c_state c) ->
+    increments powf (c_speed c) l = Ok incs -> Forall (fun x => 0 <= x) incs ->
+    time_of (c_state c) + qsum incs < inject_Z (2 ^ 64) ->
+    (Z.to_nat (Qfloor (1 + qsum incs)) < fuel)%nat ->
+    exists c', clock_run powf fuel c l = Ok c' /\ c_ticking c' = true /\ state_ok (c_state c') /\
+               time_of (c_state c') == time_of (c_state c) + qsum incs.
+Proof. exact clock_run_exact. Qed.
+
+(** Pausing freezes the clock: no list of updates changes the state of a clock that is not ticking
+    (for every number type, hence bit-for-bit in binary64: [clock_paused_frozen_any]). *)
+Theorem clock_paused_frozen :
+  forall (powf : Q -> Q -> Q) (fuel : nat) (l : list (Q * info Q)) (c c' : clock Q),
+    c_ticking c = false -> clock_run powf fuel c l = Ok c' -> c_state c' = c_state c /\ c_ticking c' = false.
+Proof. exact paused_frozen_run. Qed.
+Theorem clock_paused_frozen_any :
+  forall (T : Type) (NT : Num T) (ND : NumDur T) (powf : T -> T -> T) (fuel : nat) (c c' : clock T) (dt : T) (i : info T),
+    c_ticking c = false -> clock_update powf fuel c dt i = Ok c' ->
+    c_state c' = c_state c /\ c_ticking c' = false.
+Proof. exact @paused_frozen_any. Qed.
+
+(** Stopping: the handle reads (0, 0.0) at once; after the next [on_start_processing] the clock is
+    [NotStarted], not ticking, and reads (0, 0.0). *)
+Theorem clock_stop_resets :
+  forall (powf : Q -> Q -> Q) (fuel : nat) (y : sys Q) (c : nat) (s : slot Q),
+    nth_error (y_slots y) c = Some s -> sl_life s = Live -> sl_marked s = false ->
+    exists y1 y2 s2,
+      sys_step powf fuel y (OStop c) = Ok y1 /\
+      handle_view y1 c = Some (s_ticking (sl_shared s), 0%Z, 0) /\
+      sys_step powf fuel y1 OStartProcessing = Ok y2 /\
+      handle_view y2 c = Some (false, 0%Z, 0) /\
+      nth_error (y_slots y2) c = Some s2 /\
+      c_state (sl_clock s2) = NotStarted /\ c_ticking (sl_clock s2) = false.
+Proof. exact stop_resets_lemma. Qed.
+
+(** A speed change / speed tween takes effect when it is due: for every list of updates made after
+    the command was read, the speed is the C06 law in the target's unit — the old speed until the
+    start time counts, identically the target from the update at which elapsed >= duration. *)
+Theorem speed_change_when_due :
+  forall (powf : Q -> Q -> Q) (fuel : nat) (c c' : clock Q) (tg : cspeed Q) (tw : tween Q) (l : list (Q * info Q)),
+    not_delayed (tw_start tw) -> (tw_dur tw <> 0)%Z -> l <> [] ->
+    let c0 := clock_on_start c {| k_speed := Some (Fixed tg, tw); k_ticking := None; k_reset := false |} in
+    clock_run powf fuel c0 l = Ok c' ->
+    let D := ns_to_secs_Q (tw_dur tw) in
+    if completes (tw_start tw) D 0 l
+    then p_state (c_speed c') = Idle (Fixed tg) /\ p_raw (c_speed c') = tg
+    else p_raw (c_speed c') =
+         cspeed_interpolate (p_raw (c_speed c)) tg (ease powf (tw_easing tw) (ndiv (elapsed (tw_start tw) 0 l) D)).
+Proof. exact speed_change_when_due_lemma. Qed.
+
+(** an immediate change of zero duration is in force at the very next update *)
+Theorem speed_change_immediate :
+  forall (powf : Q -> Q -> Q) (p : param Q (cspeed Q)) (tg : cspeed Q) (tw : tween Q) (dt : Q) (i : info Q),
+    tw_start tw = Immediate -> tw_dur tw = 0%Z -> 0 <= dt ->
+    updV powf (cspeed Q) cspeed_interpolate (param_set p (Fixed tg) tw) dt i =
+      Ok ({| p_state := Idle (Fixed tg); p_raw := tg; p_prev := p_raw p; p_stagnant := true |}, true).
+Proof. exact (fun powf => set_immediate_zeroV powf (cspeed Q) cspeed_interpolate). Qed.
+
+(** F17.  While clock [k] is updated its own id resolves to the non-ticking dummy: a speed tween whose
+    start time is a time of the clock ITSELF never starts — for every list of updates, whatever the
+    storage holds, the tween is exactly where it was. *)
+Theorem self_reference_never_starts :
+  forall (powf : Q -> Q -> Q) (fuel : nat) (k : nat) (tk : Z) (fr : Q) (l : list (Q * list (slot Q)))
+         (c c' : clock Q) (v0 tg : cspeed Q) (t : Q) (tw : tween Q),
+    midV (cspeed Q) (c_speed c) v0 tg t tw -> tw_start tw = ClockT k tk fr ->
+    clock_run powf fuel c (own_updates k l) = Ok c' ->
+    midV (cspeed Q) (c_speed c') v0 tg t tw.
+Proof. exact self_reference_lemma. Qed.
+Theorem self_reference_own_id_never_now :
+  forall (slots : list (slot Q)) (k : nat) (tk : Z) (fr : Q), when_to_start (info_for slots k) k tk fr <> Now.
+Proof. exact own_id_never_now. Qed.
+(** ... whereas every other id resolves to the real clock, so a speed tween scheduled on ANOTHER
+    clock follows [speed_change_when_due] with that clock's time *)
+Theorem other_clock_resolves :
+  forall (slots : list (slot Q)) (k c : nat) (tk : Z) (fr : Q),
+    c <> k -> when_to_start (info_for slots k) c tk fr = when_to_start (info_of slots) c tk fr.
+Proof. exact other_id_real. Qed.
+(** the witness replayed on the implementation: own time => the change never happens (8 = 2 x 4 ticks),
+    other clock showing the same time => it does (29 ticks) *)
+Theorem self_reference_refuted :
+  exists y_own y_other,
+    sys_run (fun _ _ => 0) 100 (sys_new 512 64) (f17_ops 0) = Ok y_own /\
+    sys_run (fun _ _ => 0) 100 (sys_new 512 64) (f17_ops 1) = Ok y_other /\
+    handle_view y_own 0 = Some (true, 8%Z, 0) /\ handle_view y_own 1 = Some (true, 8%Z, 0) /\
+    handle_view y_other 0 = Some (true, 29%Z, 0).
+Proof. exact self_reference_witness. Qed.
+
+(** [Info::when_to_start] decides exactly "the clock resolves, is ticking, and its time >= tau". *)
+Theorem event_time_test :
+  forall (i : info Q) (c : nat) (tk : Z) (fr : Q),
+    info_frac_ok i c -> 0 <= fr -> fr < 1 ->
+    (when_to_start i c tk fr = Now <-> due i c (inject_Z tk + fr)) /\
+    (when_to_start i c tk fr = Never <-> ~ resolves i c).
+Proof. exact when_to_start_spec. Qed.
+
+(** The event-buffer rule, for every history of chunks: a sound start / resume ([WSound]) or tween
+    start ([WTween]) scheduled for [tau] on clock [c] (a) keeps waiting through every chunk after whose
+    clock update the clock is paused or short of [tau]; (b) begins at the first frame of the FIRST chunk
+    after whose update the clock is ticking with time >= [tau]; (c) is cancelled (Stopped) at the
+    first chunk in which the clock no longer resolves (a tween just keeps waiting). *)
+Theorem event_buffer :
+  forall (k : wkind) (c : nat) (tk : Z) (fr : Q) (l1 : list (Q * info Q * Z)),
+    0 <= fr -> fr < 1 ->
+    let w := {| w_kind := k; w_start := ClockT c tk fr; w_state := WWaiting |} in
+    let tau := inject_Z tk + fr in
+    Forall (pending c tau) l1 ->
+    wait_run w l1 = Ok w /\
+    (forall dt i f l2, info_frac_ok i c -> due i c tau ->
+       exists st, wait_run w (l1 ++ (dt, i, f) :: l2) = Ok {| w_kind := k; w_start := st; w_state := WBegun f |}) /\
+    (forall dt i f l2, info_frac_ok i c -> ~ resolves i c ->
+       match k with
+       | WSound => wait_run w (l1 ++ (dt, i, f) :: l2) = Ok {| w_kind := k; w_start := ClockT c tk fr; w_state := WStopped |}
+       | WTween => wait_run w (l1 ++ [(dt, i, f)]) = Ok w
+       end).
+Proof. exact event_buffer_lemma. Qed.
+(** at most one buffer early, never late: in a chunk that did not trigger the event although the
+    clock was ticking, the clock was strictly short of [tau] at the buffer's end *)
+Theorem event_not_early :
+  forall (i : info Q) (c : nat) (tau : Q) (tk : Z) (fr : Q),
+    nth_error (i_clocks i) c = Some (Some (true, tk, fr)) -> ~ due i c tau -> inject_Z tk + fr < tau.
+Proof. exact not_due_short. Qed.
+(** never while the clock is paused *)
+Theorem event_never_while_paused :
+  forall (i : info Q) (c : nat) (tau : Q) (tk : Z) (fr : Q),
+    nth_error (i_clocks i) c = Some (Some (false, tk, fr)) -> ~ due i c tau.
+Proof. exact paused_not_due. Qed.
+(** the renderer's order: within a chunk the clocks advance (by the whole chunk) first; everything
+    that waits is then evaluated against the advanced clocks *)
+Theorem event_sees_clocks_after_advance :
+  forall (powf : Q -> Q -> Q) (fuel : nat) (y y' : sys Q) (frames : Z),
+    sys_chunk powf fuel y frames = Ok y' ->
+    let d := nmul (y_dt y) (nofZ frames) in
+    clocks_update powf fuel (y_slots y) d = Ok (y_slots y') /\
+    waiters_update (y_waiters y) d (info_of (y_slots y')) (y_frames y) = Ok (y_waiters y') /\
+    y_frames y' = (y_frames y + frames)%Z.
+Proof. exact chunk_order. Qed.
+(** a dropped handle: from the next [on_start_processing] on the clock does not resolve *)
+Theorem event_cancelled_when_clock_dropped :
+  forall (slots : list (slot Q)) (c : nat) (s : slot Q),
+    nth_error slots c = Some s -> sl_life s = Live -> sl_marked s = true ->
+    ~ resolves (info_of (map slot_on_start slots)) c.
+Proof. exact dropped_clock_gone. Qed.
+
+(** F7 (binary64).  If the first increment [x] of a fresh ticking clock satisfies [x >= 1] and
+    [x - 1 = x], [Clock::update] does not return, whatever the fuel ... *)
+Theorem tick_loop_diverges :
+  forall (powf : f64 -> f64 -> f64) (sp : cspeed f64) (dt : f64) (i : info f64),
+    stuck_increment sp dt -> forall fuel, is_ok (clock_update powf fuel (fresh_ticking sp) dt i) = false.
+Proof. exact stuck_clock_never_returns. Qed.
+(** ... and [SecondsPerTick(0.0)] and [TicksPerSecond(1e300)] are such speeds (16 frames at 512 Hz). *)
+Theorem tick_loop_diverges_refuted :
+  stuck_increment spt_zero dt_16_at_512 /\ stuck_increment tps_1e300 dt_16_at_512 /\
+  clock_update (fun _ _ => f64_of_bits 0) 200 (fresh_ticking spt_zero) dt_16_at_512 no_info = Hang /\
+  clock_update (fun _ _ => f64_of_bits 0) 200 (fresh_ticking tps_1e300) dt_16_at_512 no_info = Hang.
+Proof. exact stuck_witnesses. Qed.
+
+(** The handle's two-word read under ALL schedules of the audio thread against the handle's thread
+    (reads and stops): every word read is a value that word had — nothing out of thin air. *)
+Theorem handle_time_no_thin_air :
+  forall (pubs : list (Z * Z)) (prog : list hop) (sched : list tid),
+    let s := run_sched sched (init_st pubs prog) in
+    Forall (read_ok pubs) (h_reads s) /\ In (m_ticks s) (tvals pubs) /\ In (m_frac s) (fvals pubs).
+Proof. exact words_no_thin_air. Qed.
+(** ... and reads that overlap no publication return exactly a time the clock had (the latest
+    published one) and never go backwards in the order of publication — for all schedules. *)
+Theorem handle_time_atomicity :
+  forall (pubs : list (Z * Z)) (nreads : nat) (sched : list tid),
+    let s := run_sched sched (init_st pubs (repeat HRead nreads)) in
+    (forall r k, In r (h_reads s) -> r_clean r = Some k -> (r_tk r, r_fr r) = hist pubs k) /\
+    (forall l1 r2 l2 r1 l3 k1 k2,
+        h_reads s = l1 ++ r2 :: l2 ++ r1 :: l3 ->
+        r_clean r1 = Some k1 -> r_clean r2 = Some k2 -> (k1 <= k2)%nat).
+Proof. exact clean_reads_exact_monotone. Qed.
+(** F16.  A read that straddles a publication is torn: while the clock runs from 0.75 to 1.25 the
+    handle first reads 0.75 and then (ticks_old, fraction_new) = (0, 0.25): a time the clock never
+    had, and earlier than the previous read. *)
+Theorem torn_read_refuted :
+  let s := run_sched torn_sched (init_st torn_pubs [HRead; HRead]) in
+  exists r1 r2, h_reads s = [r2; r1] /\
+    (r_tk r1, r_fr r1) = (0, b075)%Z /\
+    (r_tk r2, r_fr r2) = (0, b025)%Z /\
+    (forall k, (r_tk r2, r_fr r2) <> hist torn_pubs k) /\
+    lt_time (r_tk r2, r_fr r2) (r_tk r1, r_fr r1) /\
+    lt_time (hist torn_pubs 1) (hist torn_pubs 2).
+Proof. exact torn_old_new. Qed.
+(** the other tear, (ticks_new, fraction_old) = (1, 0.75): half a tick ahead of anything the clock
+    had; the next read, the true 1.25, is then backwards *)
+Theorem torn_read_ahead_refuted :
+  let s := run_sched [Audio; Audio; Audio; Handle; Handle; Audio; Handle; Handle] (init_st torn_pubs [HRead; HRead]) in
+  exists r1 r2, h_reads s = [r2; r1] /\
+    (r_tk r1, r_fr r1) = (1, b075)%Z /\
+    (forall k, (r_tk r1, r_fr r1) <> hist torn_pubs k) /\
+    (r_tk r2, r_fr r2) = (1, b025)%Z /\
+    lt_time (r_tk r2, r_fr r2) (r_tk r1, r_fr r1).
+Proof. exact torn_new_old. Qed.
+(** [ClockHandle::stop]'s caller-side stores race with a publication in progress: (0, 0.75) is left
+    in the words although the clock never showed that time *)
+Theorem stop_store_race_refuted :
+  let s := run_sched [Audio; Handle; Handle; Audio; Handle; Handle] (init_st [(5, b075)%Z] [HStop; HRead]) in
+  exists r, h_reads s = [r] /\ (r_tk r, r_fr r) = (0, b075)%Z /\ forall k, (r_tk r, r_fr r) <> hist [(5, b075)%Z] k.
+Proof. exact stop_store_race. Qed.
